@@ -27,7 +27,10 @@ ASSUMPTIONS = [
     "runs that exceed the step budget are inconclusive here (C13 judges them)",
 ]
 
-BASE = dict(after=True, invoke=True, raising_guards=True, nested_builtins=True, null_transitions=True)
+BASE = dict(after=True, invoke=True, raising_guards=True, nested_builtins=True, null_transitions=True,
+            prefix_keys=True, hist_at_root=True)
+# second campaign: many simultaneously enabled eventless transitions in sibling regions
+ALWAYS_HEAVY = dict(BASE, after=False, invoke=False, p_always=45, p_guard=35, p_handler=20, nested_builtins=False)
 def _profiles():
     from .. import findings
 
@@ -36,8 +39,8 @@ def _profiles():
 
 def plan(tier):
     main, probes = _profiles()
-    n = 6000 if tier == "quick" else 120000
-    out = [{"name": "main", "examples": n}]
+    n = 4000 if tier == "quick" else 120000
+    out = [{"name": "main", "examples": n}, {"name": "always-heavy", "examples": n // 3}]
     for name in probes:
         out.append({"name": name, "examples": 320 if tier == "quick" else 3200, "shards": 4})
     return out
@@ -45,7 +48,10 @@ def plan(tier):
 
 def strategy(tier, campaign):
     main, probes = _profiles()
-    prof = gen.profile(**(main if campaign == "main" else probes[campaign]))
+    if campaign == "always-heavy":
+        prof = gen.profile(**dict(main, **{k: v for k, v in ALWAYS_HEAVY.items() if k not in ("exclude_classes",)}))
+    else:
+        prof = gen.profile(**(main if campaign == "main" else probes[campaign]))
     return st.fixed_dictionaries(
         {
             "spec": gen.machine_specs(prof),
